@@ -364,6 +364,7 @@ def apply(ctx, W):
             ("modules_frame(old(semantic).modules@, final(semantic).modules@)", ("C05", "C10", "C14", "C15"), "build-keeps-modules"),
             ("final(semantic).type_registry.pointer_size == old(semantic).type_registry.pointer_size", ("C10",), "build-keeps-pointer-size"),
             ("registry_frame(&old(semantic).type_registry, &final(semantic).type_registry, *resolvee_path)", ("C10", "C19"), "build-attempt-frame"),
+            ("entries_kept(&old(semantic).type_registry, &final(semantic).type_registry)", ("C14", "C17"), "build-attempt-keeps-entries"),
             ("""res is Ok && res->Ok_0 is Some ==> ({
                 let isr = res->Ok_0->0; let reg = &final(semantic).type_registry;
                 &&& isr.inner is Type
